@@ -64,9 +64,17 @@ class LinearKernel(Kernel):
         if variance_prior is not None:
             if not isinstance(variance_prior, Prior):
                 raise TypeError("Expected gpytorch.priors.Prior but got " + type(variance_prior).__name__)
-            self.register_prior("variance_prior", variance_prior, lambda m: m.variance, lambda m, v: m._set_variance(v))
+            self.register_prior("variance_prior", variance_prior, self._variance_param, self._variance_closure)
 
         self.register_constraint("raw_variance", variance_constraint)
+
+    def _variance_param(self, m):
+        # Used by the variance_prior (a method rather than a lambda: the module stays picklable)
+        return m.variance
+
+    def _variance_closure(self, m, v):
+        # Used by the variance_prior
+        return m._set_variance(v)
 
     @property
     def variance(self) -> Tensor:
